@@ -11,6 +11,7 @@ mod validators;
 mod layouts;
 mod tables;
 mod families;
+mod shapes;
 
 use std::path::PathBuf;
 
@@ -42,6 +43,7 @@ fn main() {
     run("layouts", &layouts::run);
     run("tables", &tables::run);
     run("families", &families::run);
+    run("shapes", &shapes::run);
     if failed {
         std::process::exit(2);
     }
